@@ -1152,6 +1152,24 @@ def run_resumesave(prog, ctx=None):
                         l = strip(n["a"], lvalue_to_rvalue=False)
                         if l.get("k") == "mem":
                             fields.append(norm(show(l, f)))
+                # a file-local helper that saves the fields of an object it is handed counts as those stores
+                if e.get("k") == "call" and e.get("fn"):
+                    for g in prog.resolve_call(f, e):
+                        if g.nocfg or not g.static:
+                            continue
+                        pids = {p["id"]: k for k, p in enumerate(g.params)}
+                        for b2, i2, m in g.walk_all():
+                            if m.get("k") == "bin" and m["op"].endswith("=") and m["op"] not in ("==", "!=", "<=", ">="):
+                                l2 = strip(m["a"], lvalue_to_rvalue=False)
+                                if l2.get("k") == "mem":
+                                    # innermost base of the member path
+                                    base, path = l2, []
+                                    while base.get("k") == "mem":
+                                        path.append(("->" if base.get("arrow") else ".") + base["f"])
+                                        base = strip(base["b"], all_casts=True)
+                                    if base.get("k") == "ref" and base["d"].get("id") in pids and pids[base["d"]["id"]] < len(e.get("args", [])):
+                                        at = norm(show(strip(e["args"][pids[base["d"]["id"]]], all_casts=True), f))
+                                        fields.append(at + "".join(reversed(path)))
             if fields:
                 exits.append((bid, frozenset(fields), b.el[rets[0]]))
         if len(exits) < 4:
